@@ -34,6 +34,34 @@ Theorem C25_event_body : forall h e m id d,
 Proof. exact event_body. Qed.
 Print Assumptions C25_event_body.
 
+(* The same for histories: several plugin messages back to back through the same handler instance
+   (the events run asynchronously, so an earlier event may still be in flight when a later message is
+   handled): every event exposes the body of ITS OWN message, and what is written for a message is that
+   message — nothing depends on a later message. *)
+Theorem C25_event_body_history : forall h e ms,
+  Forall2 (fun m o => forall id d, In (EPM id d) (o_events o) -> id = m_ch m /\ d = m_data m)
+          ms (spec_history h e ms).
+Proof. exact event_body_history. Qed.
+Print Assumptions C25_event_body_history.
+
+Theorem C25_written_history : forall h e ms,
+  Forall2 (fun m o => forall w, In w (o_writes o) ->
+             match w with
+             | WPkt _ _ ch d => ch = m_ch m /\ d = m_data m
+             | WRaw _ p => p = m_payload m
+             | WBrand _ ch => ch = m_ch m /\ classify (m_ch m) = KBrand
+             end) ms (spec_history h e ms).
+Proof. exact written_history. Qed.
+Print Assumptions C25_written_history.
+
+(* the judge's per-message test of a history observation (Data() when the subscriber starts, Data() when
+   it is released after the next message was handled) means exactly: both equal that message's body *)
+Theorem C25_history_observation_means_own_body : forall h e m x id d,
+  hist_matches (spec_handle h e m) x = true -> o_events (spec_handle h e m) = [EPM id d] ->
+  h_start x = m_data m /\ h_end x = m_data m.
+Proof. exact hist_matches_body. Qed.
+Print Assumptions C25_history_observation_means_own_body.
+
 (* Clause "the data a handler sees is the data forwarded": whatever a handler writes is the message
    itself — the decoded (channel, body), the raw packet it arrived in, or the rewritten brand. *)
 Theorem C25_written_is_message : forall h e m w,
@@ -93,3 +121,7 @@ Proof. exact nonvacuous_register. Qed.
 Example C25_nonvacuous_event :
   In (EPM [109;121;58;99] [222;173]) (o_events (spec_handle HBackendPlay env0 custom_msg)).
 Proof. exact nonvacuous_event. Qed.
+
+Example C25_nonvacuous_history :
+  map o_events (spec_history HBackendPlay env0 two_msgs) = [[EPM [109;121;58;99] [222;173]]; [EPM [109;121;58;99] [1;2]]].
+Proof. exact nonvacuous_history. Qed.
